@@ -494,3 +494,35 @@ PROPS = {
         ],
     },
 }
+
+# Extensions made after the claims above were written (rounds 3 and 4 of the seeded changes and the defects they led to);
+# appended to the claim so that MANIFEST and the evidence files say what is generated now.
+EXTENSIONS = {
+    "C09": ("In one case of eight route 0 is also announced for 820-1300 host prefixes and the targets then start new sessions, so "
+            "that the exported copies are packed into UPDATEs filled to the size limit: every host route must arrive with the "
+            "reference attributes."),
+    "C10": ("Every attribute of the route a policy hands on must report the length it serialises to (what the UPDATE packer budgets with)."),
+    "C11": ("The attribute objects of a set are built by the constructors, decoded from the wire, reconstructed from an OLD speaker's "
+            "form (RFC 6793) or edited through the Path API (AS prepended) before packing."),
+    "C12": ("A rival source V (no graceful restart, session stays up) announces some of the prefixes with a longer AS_PATH: in the Loc-RIB "
+            "and at both observers R's route is the best one while fresh or merely stale, V's once R's is LLGR-stale or gone."),
+    "C14": ("In more than half of the wire-level cases the routes are LEARNED from a peer without the capability (OLD-speaker form built "
+            "by the harness, optionally with an RFC 7606 attribute-discard fault in every UPDATE; control: a peer with the capability): "
+            "Adj-RIB-In and Loc-RIB must hold the reconstructed 4-octet attributes and no AS4_* attribute, and the observer must "
+            "receive every route. The table-level unit also requires every reconstructed attribute to report the length it "
+            "serialises to."),
+    "C17": ("Other extended communities may precede the route targets; in a third of the cases the CE sessions negotiate ADD-PATH and "
+            "announce / withdraw their prefix under two path identifiers; half of the histories issue operations without waiting for "
+            "the previous one (steered yield points incl. the RTC filter)."),
+    "C20": ("The management actors also call the rest of the API: ShutdownPeer, hard ResetPeer, GetTable / GetBgp / ListVrf, defined "
+            "sets / statements / policies / assignments added, listed and deleted one object at a time, peer groups and dynamic "
+            "neighbours, RPKI / BMP listings, SetLogLevel. After Stop every transport connection must be closed. The C07 active unit "
+            "under the race detector includes KEEPALIVE+OPEN and OPEN+DisablePeer at one instant and the hand-over yield point."),
+    "C07": ("The active unit also draws: KEEPALIVE on one connection and OPEN on the other at once, OPEN on the outbound connection with "
+            "DisablePeer 0-300 us later, DisablePeer / EnablePeer; invariants: nothing dialled / accepted / left open while "
+            "administratively down, every connection closed after Stop."),
+    "C02": ("White-box probe: an UPDATE stamped before the current session came up changes neither Adj-RIB-In nor Loc-RIB."),
+}
+for _k, _v in EXTENSIONS.items():
+    PROPS[_k]["claim"] = PROPS[_k]["claim"] + " " + _v
+PROPS["C12"]["note"] = PROPS["C12"]["note"].replace(", depreference of LLGR-stale routes against fresh ones", "")
